@@ -16,43 +16,43 @@ COMMON_NOTE = ("Trusted: Lean 4.33 kernel (axioms of every theorem audited by #p
 CLAIMS = {
  "C01": ("Kernel-checked theorems about the Lean models of the block matcher (fail_restores, frontier_eq_consumed: every consumed item is in the tree once, in order, for every class table and leaf oracle), the reader (get_put_inverse, join_continuation) and the expression chain (parse_sound, parse_render_partial), tied to the code by regenerated tables and co-simulation; the round trip itself is decided on generated programs (both standards, comments dropped/kept). PARTIAL: leaf match/tostr pairs are exercised, not proved.",
          "Round-trip of hand-written leaf classes is tested on generated inputs only.", "Lean 4 proof of model + translator/co-simulation tie + differential search", "§5 C01"),
- "C02": ("Theorems norm_idem, norm_never_invents, norm_only_drops_droppable, norm_literals_exact (the comparison itself is sound and exact on literals), splitquote_join, srm_lower_preserves_literals, parse_sound (expressions), frontier_eq_consumed (no statement dropped/duplicated/reordered); oracle normeq(source, printed) computed by the Lean model for every generated program and layout. PARTIAL: srm_roundtrip is an open obligation; leaf classes are exercised only.",
+ "C02": ("Theorems norm_idem, norm_never_invents, norm_only_drops_droppable, norm_literals_exact (the comparison itself is sound and exact on literals), splitquote_join, srm_lower_preserves_literals, parse_sound (expressions), frontier_eq_consumed (no statement dropped/duplicated/reordered); oracle normeq(source, printed) computed by the Lean model for every generated program and layout. srm_roundtrip_partial (string_replace_map followed by re-application is lossless modulo blanks inside parentheses, under two decidable hypotheses whose negations have decide'd witnesses), srm_literals_in_map, srm_hides_groups. PARTIAL: leaf classes are exercised only.",
          "The normaliser's canonicalisation list is calibrated against the real printer (negative controls 100%).", "Lean 4 proof of model + Lean-computed token oracle", "§5 C02"),
- "C03": ("parse_sound, parse_render_partial (for every tree derivable by the standard's grammar R701-R722 inside the stated boundary, the model parser returns exactly that tree), parse_groups, boundary necessity + decide'd witnesses of the failing family; level table tied by kernel obligation levels_tie_f2003/f2008 on the table regenerated from the repo; model == real Fortran2003.Expr on bounded-exhaustive + random expressions every run.",
-         "Regex lexing of operators is co-simulated, not proved. Known finding F-C03-1 is the negated hypothesis of parse_render_partial.", "Lean 4 proof (induction over expression trees) + kernel-checked generated-table tie + co-simulation", "§5 C03"),
+ "C03": ("parse_sound, parse_render_partial (for every tree derivable by the standard's grammar R701-R722 inside the stated boundary, the model parser returns exactly that tree), parse_groups, boundary necessity + decide'd witnesses of the failing family; string level: rsplit_sound/lsplit_sound and string_step_refines_token_step (the regex-and-slice match step of every operator level refines the token-level step); level table tied by kernel obligation levels_tie_f2003/f2008 on the table regenerated from the repo; model == real Fortran2003.Expr on bounded-exhaustive + random expressions every run.",
+         "Operator regexes are hand scanners tied by exhaustive tables (560k inputs) and co-simulation; the last lemma of the full string-to-token refinement (re-lexing of halves) is co-simulated only. Known finding F-C03-1 is the negated hypothesis of parse_render_partial.", "Lean 4 proof (induction over expression trees) + kernel-checked generated-table tie + co-simulation", "§5 C03"),
  "C04": ("Reader theorems join_continuation (continuation lines with comments/blank lines in between join to one item with exact span, for every such layout), get_put_inverse, splitquote_join/splitquote_state (quote state across cuts); model == real reader by co-simulation; property decided on generated programs x seeded layouts incl. ';' joins and keyword-pair stress. PARTIAL: cuts inside literals and multi-statement induction are co-simulated only.",
          "'same items => same tree' needs blank-insensitive leaf matchers: exercised only.", "Lean 4 proof of reader model + co-simulation + differential search", "§5 C04"),
- "C05": ("detect_fixed / detect_free / detect_free_only_if (format detection, all sources) with decide'd misdetection witnesses; regex tables kernel/exhaustively tied; fixed-form reader branch co-simulated; property decided on fixed-form renderings (wrap, continuation char, comment style, label placement).",
-         "fixed_items (fixed-form join) is co-simulated, not proved.", "Lean 4 proof of detection model + co-simulation + differential search", "§5 C05"),
- "C06": ("outcome_classified and systemExit_only_via_reader_error (block level, every class table and leaf oracle: if leaves only return match/none/NoMatch/Syntax/InternalSyntax the outcome is tree or FortranSyntaxError, SystemExit only through reader.error); termination of the modelled algorithms by construction; fuzz stream (mutants + random text, both standards, comments kept/dropped, invalid UTF-8 file) is the search for leaf escapes, classified by call site. PARTIAL by nature.",
+ "C05": ("detect_fixed / detect_free / detect_free_only_if (format detection, all sources) with decide'd misdetection witnesses; fixed_items / fixed_items_drain / fixed_spans_ordered (fixed-form statements with label, column-6 continuation and comment lines in between read as one item with exact span, any list of statements); regex tables kernel/exhaustively tied; property decided on fixed-form renderings (wrap, continuation char, comment style, label placement).",
+         "fixed_items covers clean columns 7+ (no quotes/!/;): literals crossing the wrap are co-simulated only.", "Lean 4 proof of detection model + co-simulation + differential search", "§5 C05"),
+ "C06": ("outcome_classified and systemExit_only_via_reader_error (block level, every class table and leaf oracle: if leaves only return match/none/NoMatch/Syntax/InternalSyntax the outcome is tree or FortranSyntaxError, SystemExit only through reader.error); drain_total (the modelled reader terminates within 2*lines+pending+1 calls on every source without ';'-splitting and INCLUDE resolution), eval_fuel_mono, parse_fuel_enough; fuzz stream (mutants + random text, both standards, comments kept/dropped, invalid UTF-8 file) is the search for leaf escapes, classified by call site. PARTIAL by nature.",
          "Leaf classes' own stray exceptions and the wall-clock bound are outside the model.", "Lean 4 proof of block model (plumbing) + fuzz search", "§5 C06"),
- "C07": ("no_read_past_unmatched, unmatched_rejects_program (block level: an item matched by no leaf class is never read past and the outcome is an error, for every table/oracle/nesting) + linecount_monotone / linecount_is_lines_read / item_span_bounds (reader); property decided exhaustively per generated program (every statement replaced by garbage).",
+ "C07": ("no_read_past_unmatched, unmatched_rejects_program (block level: an item matched by no leaf class is never read past and the outcome is an error, for every table/oracle/nesting) + linecount_monotone / linecount_is_lines_read / item_span_bounds (reader) + the composition error_line_is_last_line_of_g (reader_refines_stream: the block model's abstract stream is implemented by the reader; when the matcher raises because of unmatched item g the reader's linecount is g's last physical line and source_lines[linecount-1] is that line, for free-form chunk layouts; lower bound error_line_not_before_g for all sources); property decided exhaustively per generated program (every statement replaced by garbage).",
          "", "Lean 4 proof (block + reader models) + exhaustive per-program search", "§5 C07"),
  "C08": ("block_closed, endOK_names, program_consumes_all, unmatched_rejects_program, nomatch_restores (block level, every class table and leaf oracle), cfg_flags/named_strict/program_shape on the block tables regenerated from the repo (kernel-checked), splitparen_balanced/splitparen_paren_shape, srm_unmatched_opener_visible; property decided on every single structural mutation of generated programs.",
          "CloserOnly/OpenerOnly leaf exclusivity is exercised, not proved.", "Lean 4 proof (block + tokeniser models) + kernel-checked generated-table tie + exhaustive per-program mutation search", "§5 C08"),
  "C09": ("create_overwrites / registry_depends_only_on_last_create / create_clears_tables (registry model, every history), program_failure_rolls_back (every table/oracle: any exception of Program restores the scope chain and leaves no new top-level table), scope_balanced_partial, enter_exit_balanced, clear_resets; registry and symbol-table models co-simulated; property decided on exhaustive/random create-parse histories against fresh interpreter processes.",
          "memoisation of string_replace_map is outside the model (values are immutable by convention).", "Lean 4 proof (registry, symbol-table, block models) + co-simulation + history enumeration vs fresh processes", "§5 C09"),
- "C10": ("parents_consistent / parent_of_lastAttachedBy / parent_of_lastReset (arena model of _set_parent, every construction history), items_once_in_order / frontier_eq_consumed (statement order = source order); arena model co-simulated on recorded construction events of real trees; invariants decided directly on every tree of generated programs and of their re-parse.",
-         "walk pre-order clause and freshness for string-level nodes are checked on observed trees (partial).", "Lean 4 proof (tree arena + block models) + co-simulation + direct structural check", "§5 C10"),
- "C11": ("read_comments_once / read_ignore_comments / read_spans_ordered (reader, every chunk list), join_continuation (comments between continuation lines), comments_once_in_order / items_once_in_order / fail_restores (block level, every table/oracle: every comment item of the input is a tree leaf once, in order; back-tracking restores them); property decided on generated comment placements.",
+ "C10": ("parents_consistent / parent_of_lastAttachedBy / parent_of_lastReset (arena model of _set_parent, every construction history), walk_preorder (walk lists every reachable node once in pre-order, through tuples and lists), walk_statement_order (= the block model's frontier), items_once_in_order / frontier_eq_consumed (statement order = source order); arena model co-simulated on recorded construction events of real trees; invariants decided directly on every tree of generated programs and of their re-parse.",
+         "freshness of construction events for string-level nodes is checked on observed trees (partial).", "Lean 4 proof (tree arena + block models) + co-simulation + direct structural check", "§5 C10"),
+ "C11": ("read_comments_once / read_ignore_comments / read_spans_ordered (reader, every chunk list), join_continuation (comments between continuation lines), comments_are_leaves_once (composition through reader_refines_stream), comments_once_in_order / items_once_in_order / fail_restores (block level, every table/oracle: every comment item of the input is a tree leaf once, in order; back-tracking restores them); property decided on generated comment placements.",
          "directive retyping is decided on generated inputs only.", "Lean 4 proof (reader + block models) + co-simulation + placement search", "§5 C11"),
- "C12": ("get_put_inverse, lookahead_restore, walk_restore (any well-bracketed read-ahead/restore walk, include delegation included), drain_unique, item_span_bounds, read_spans_ordered, join_continuation, linecount theorems; regex scanners tied by exhaustive tables; model == real reader on the layout generators every run; items compared with the expectation by construction.",
-         "include_transparent/fixed_items are co-simulated only. Known finding F-C12-1 has decide'd witnesses.", "Lean 4 proof (reader model) + exhaustive regex tables + co-simulation", "§5 C12"),
- "C13": ("include_missing_kept, get_put_inverse/walk_restore through include readers (reader), fail_restores/items_once_in_order (block level), detect_free/detect_fixed (format of the included file); transparency decided on splits of generated programs into nested include files (file and string readers, decoy directories).",
-         "include_transparent is co-simulated, not proved; include files must be format-stable (C05 boundary).", "Lean 4 proof (reader + block + detection models) + co-simulation + split enumeration", "§5 C13"),
+ "C12": ("get_put_inverse, lookahead_restore, walk_restore (any well-bracketed read-ahead/restore walk, include delegation included), reader_refines_stream + block_backtracking_is_invisible (a block-matcher run that fails leaves the reader's future unchanged), drain_unique, item_span_bounds, read_spans_ordered, join_continuation, linecount theorems; regex scanners tied by exhaustive tables; model == real reader on the layout generators every run; items compared with the expectation by construction.",
+         "Known finding F-C12-1 has decide'd witnesses.", "Lean 4 proof (reader model) + exhaustive regex tables + co-simulation", "§5 C12"),
+ "C13": ("include_transparent (nested, clean chunk layouts, on (kind,text,label,name)), include_first_dir_wins, include_missing_kept, include_boundary_putback (reader), fail_restores/items_once_in_order (block level), detect_free/detect_fixed (format of the included file); transparency decided on splits of generated programs into nested include files (file and string readers, decoy directories).",
+         "include files must be format-stable (C05 boundary) and deliver at least one item (include_empty_file_witness).", "Lean 4 proof (reader + block + detection models) + co-simulation + split enumeration", "§5 C13"),
  "C14": ("cpp_line_item / cpp_line_item_free (a '#' line with k backslash continuations is exactly one item spanning k+1 lines, every reader state), items_once_in_order / fail_restores (block level: each cpp item is a tree leaf once, in order); property decided on insertions of every directive kind at statement boundaries.",
          "Cpp_* leaf match/tostr pairs are exercised, not proved (F-C14-1 is such a leaf defect).", "Lean 4 proof (reader + block models) + co-simulation + insertion search", "§5 C14"),
- "C15": ("omp_sentinel_blanked, omp_directive_untouched, omp_nomatch_unchanged, omp_fixed_column6, omp_disabled, omp_enabled_single, omp_enabled_directive_is_comment, omp_join_continuation (reader model, every line / reader state); sentinel regexes tied by exhaustive tables; reader co-simulated in both modes on every generated source; property decided on subsets of statements hidden behind sentinels, free and fixed form.",
-         "fixed-form multi-line case is co-simulated only.", "Lean 4 proof (reader model) + exhaustive regex tables + co-simulation", "§5 C15"),
+ "C15": ("omp_sentinel_blanked, omp_directive_untouched, omp_nomatch_unchanged, omp_fixed_column6, omp_disabled, omp_enabled_single, omp_enabled_directive_is_comment, omp_join_continuation, omp_fixed_disabled, omp_fixed_enabled, omp_fixed_enabled_any_source, omp_fixed_enabled_drain (reader model, every line / reader state, free and fixed form); sentinel regexes tied by exhaustive tables; reader co-simulated in both modes on every generated source; property decided on subsets of statements hidden behind sentinels, free and fixed form.",
+         "an `!$omp` line between the continuation lines of a sentinel statement is swallowed (noted defect, outside the generated class).", "Lean 4 proof (reader model) + exhaustive regex tables + co-simulation", "§5 C15"),
  "C16": ("lookup_parents_only (a lookup depends only on the tables on the path to the root: sibling/inner declarations cannot change it), intrinsic_iff_not_shadowed, intrinsic_parents_only, enter_exit_balanced, scope_balanced_partial, program_failure_rolls_back; symbol-table model co-simulated on random operation scripts; forest == scope tree and intrinsic resolution decided on generated scope nests with shadowing at chosen levels.",
          "tables_mirror_tree is decided on generated nests, not proved; F-C16-1 has a decide'd witness.", "Lean 4 proof (symbol-table + block models) + co-simulation + ground-truth-by-construction search", "§5 C16"),
  "C17": ("registry_f2008_covers_f2003_partial, f2008_has_every_f2003_rule, f2003_has_no_f2008_class, intr2003_subset_intr2008 (kernel-checked on the class tables regenerated from the repo), setup model == live Base.subclasses (exhaustive executable check); differential parse of generated F2003 programs under both standards and one probe per F2008-only construct.",
          "table inclusion does not imply language inclusion (ordered choice): the differential run covers the rest.", "Lean 4 proof over regenerated tables (decide +kernel) + differential search", "§5 C17"),
- "C18": ("copyok_generated (every rule class of the regenerated class table satisfies the copy protocol: kernel-checked, flips if a class loses _deepcopy/.string), copyok_custom_new, deepcopy_fails_at_start; copy model co-simulated incl. grafted broken classes; deepcopy/pickle decided directly on trees of generated programs incl. comment, directive, include and cpp nodes.",
-         "deepcopy_iso is checked on observed trees (partial).", "Lean 4 proof over regenerated tables + co-simulation + direct copy check", "§5 C18"),
+ "C18": ("copyok_generated (every rule class of the regenerated class table satisfies the copy protocol: kernel-checked, flips if a class loses _deepcopy/.string), copyok_custom_new, deepcopy_iso / deepcopy_iso_tree / deepcopy_frame (a copy started at the root is isomorphic, id-disjoint, leaves the original untouched and is itself well formed); copy model co-simulated incl. grafted broken classes; deepcopy/pickle decided directly on trees of generated programs incl. comment, directive, include and cpp nodes.",
+         "deepcopy_iso is proved for copies started at the root; copies from inner nodes are co-simulated.", "Lean 4 proof over regenerated tables + co-simulation + direct copy check", "§5 C18"),
  "C19": ("nest1_flatten, nest1_print_stable (unconditional at HEAD), fill_input (fparser1 block nesting model: nesting the flattened statement list gives back the tree, nothing dropped/duplicated/reordered, every depth), norm theorems for the statement-text comparison; model == real fparser1 nesting on generated F77/F90 sources (free/fixed, incl. broken ones); round trip decided directly.",
          "fparser1's per-statement regex parsers are leaves.", "Lean 4 proof (nesting model) + co-simulation + direct round trip", "§5 C19"),
- "C20": ("eval_fuel_mono, parse_cache_once (block model: a completed evaluation is fuel-independent; a (line, class) pair is matched at most once), parse_fuel_enough (expression model: explicit fuel bound); deterministic count of rule-constructor calls on a fixed catalogue of families at doubling sizes under a budget. PARTIAL: no polynomial bound is proved for the whole parser (two catalogue families are exponential: known findings).",
+ "C20": ("eval_fuel_mono, parse_cache_once, queries_le_gets (block model), parse_fuel_enough, parse_calls_le_exp (expression model: explicit bounds) and the NEGATIVE results parse_calls_not_polynomial / parse_calls_exponential_witness (no polynomial bound exists for the expression chain on valid input) and cost_doubles_witness (block model, distinct-label non-block DO nests); deterministic count of rule-constructor calls on a fixed catalogue of families at doubling sizes under a budget. PARTIAL: the property is FALSE for three catalogue families (known findings F-C20-1..3), two of them proved exponential in the models.",
          "a bound for unseen n is an extrapolation; per-family degree k_f = 1 is fixed from the pinned tree.", "Lean 4 proof (termination/fuel bounds of the models) + deterministic call counting", "§5 C20"),
 }
 
